@@ -6,6 +6,23 @@ import json, subprocess
 HOOK_COMMITS = ["4609c65"]
 
 CHECKS = {
+ "C05": dict(engine="SP", cat="exploration",
+   technique="proptest-generated ACK/window schedules from a scripted peer; sender reference observer evaluated at every first transmission",
+   text="Generated write patterns against generated cumulative-ACK and window schedules (grow, shrink, zero, re-open, < mss, withheld ACKs); at every first transmission: outstanding <= last window outside possible recovery, nothing new at window 0, slow-start bound before the first loss event, one segment after an RTO. Same-instant peer packets are evaluated as processed and as unprocessed.",
+   note="'possible recovery' is a conservative superset; known finding F9 (timer path sends unsent segments) is counted by signature and checking continues behind it", ref="§5 C05"),
+ "C06": dict(engine="SP", cat="exploration",
+   technique="proptest-generated acknowledgement histories (dup/SACK/stale/silence) from a scripted peer; wire-log oracle on retransmission timing, count and content",
+   text="Generated histories incl. SACK bitmaps of 1/4/8/32 bytes, duplicates, stale and too-far acks, silences up to 140 s and canonical fast-retransmit scenarios; checks: acked/SACKed never retransmitted, stable content, timeouts not before 200 ms and doubling (2 ms tolerance), oldest segment only, transmission count bound then failure, third duplicate => retransmission at that instant.",
+   note="only the first 64 SACK bits count (documented truncation); at most one recovery retransmission may precede a timeout chain while recovery is possible", ref="§5 C06"),
+ "C18": dict(engine="SP", cat="exploration",
+   technique="proptest-generated write-size/ACK-timing sequences, both Nagle settings; wire-log oracle",
+   text="Generated write sizes around the segment size with generated ACK timings; Nagle on: no sub-segment first transmission while earlier data is unacknowledged (huge-window class), held tail leaves at the instant the pipe drains; Nagle off: everything buffered leaves at the next processed event within the slow-start allowance; no byte lost.",
+   note="window-limited class asserts only byte conservation (pre-segmentation makes window-limited cuts visible later)", ref="§5 C18"),
+ "C19": dict(engine="SP", cat="exploration",
+   technique="proptest-generated ring sizes, write bursts and ACK schedules; occupancy oracle from application and wire logs",
+   text="Generated initial/maximum ring sizes (incl. max < initial), writers that write as fast as allowed, ACK schedules incl. a peer that stops; bound accepted-acked <= max(initial,max) after every accepted write, parked only on a full ring, resumed by the first space-freeing ACK, errors only after the connection ended, content intact across growth.",
+   note="occupancy is derived from wire acks; same-instant acks are counted both ways", ref="§5 C19"),
+
  "C01": dict(engine="E2E+COMP", cat="exploration",
    technique="proptest-generated end-to-end transfers over a deterministic simulated lossy network; prefix and wire-content oracles against keyed payload streams; model-based component sequences",
    text="Two real sockets over the simulated network (paused tokio clock) with adversarial generated fault plans (loss, dup, delay > RTO, path-MTU blackhole, EMSGSIZE, cut), generated chunking/pauses/configurations; every read checked against the keyed stream the peer wrote, every ST_DATA checked against the stream at its derived offset. Sampled search; shrunk failures are replay files.",
